@@ -82,13 +82,13 @@ CombOrder0 == LET F[k \in 0..Len(net.leaves)] ==
               IN  F[Len(net.leaves)]
 
 \* ------------------------------------------------------------ propagation
+RECURSIVE PutOuts(_, _, _, _)
+PutOuts(v, b, raw, k) ==
+    IF k > Len(L(b).outs) THEN v
+    ELSE PutOuts([v EXCEPT ![L(b).outs[k]] = Put(raw[k], net.width[L(b).outs[k]])], b, raw, k + 1)
+
 PropLeaf(v, b) ==
-    LET raw == CombRaw(L(b).kind, L(b).p, InVals(b, v), InWidths(b), OutWidths(b))
-    IN  [w \in Wires |->
-           IF \E k \in 1..Len(L(b).outs) : L(b).outs[k] = w
-           THEN LET k == CHOOSE k \in 1..Len(L(b).outs) : L(b).outs[k] = w
-                IN  Put(raw[k], net.width[w])
-           ELSE v[w]]
+    PutOuts(v, b, CombRaw(L(b).kind, L(b).p, InVals(b, v), InWidths(b), OutWidths(b)), 1)
 
 RECURSIVE PropSeq(_, _, _)
 PropSeq(v, ord, k) == IF k > Len(ord) THEN v ELSE PropSeq(PropLeaf(v, ord[k]), ord, k + 1)
@@ -251,20 +251,37 @@ FixpointWhenIdle    == pc \in {"idle", "settled"} /\ ~taint /\ ~dirty => AtFixpo
 \* C05: the order-free reference for one edge, computed from the snapshot
 ActiveDoms(v) == {d \in Doms : ~(net.doms[d].en # 0 /\ v[net.doms[d].en] = 0)}
 
-EdgeRefSt(v, s) ==
-    [b \in Leaves |-> IF IsSeq(b) /\ L(b).dom \in ActiveDoms(v)
-                      THEN SeqClock(L(b).kind, L(b).p, s[b], InVals(b, v)).st ELSE s[b]]
+RECURSIVE EdgeStFrom(_, _, _, _, _)
+EdgeStFrom(acc, v, s, act, b) ==
+    IF b > Len(net.leaves) THEN acc
+    ELSE EdgeStFrom(IF IsSeq(b) /\ L(b).dom \in act
+                    THEN [acc EXCEPT ![b] = SeqClock(L(b).kind, L(b).p, s[b], InVals(b, v)).st]
+                    ELSE acc, v, s, act, b + 1)
 
-EdgeRefPrep(v, s) ==
-    [w \in Wires |->
-       IF \E b \in Leaves : IsSeq(b) /\ L(b).dom \in ActiveDoms(v) /\
-             \E k \in 1..Len(SeqClock(L(b).kind, L(b).p, s[b], InVals(b, v)).prep) : L(b).outs[k] = w
-       THEN LET b == CHOOSE b \in Leaves : IsSeq(b) /\ L(b).dom \in ActiveDoms(v) /\
-                        \E k \in 1..Len(SeqClock(L(b).kind, L(b).p, s[b], InVals(b, v)).prep) : L(b).outs[k] = w
-                r == SeqClock(L(b).kind, L(b).p, s[b], InVals(b, v))
-                k == CHOOSE k \in 1..Len(r.prep) : L(b).outs[k] = w
-            IN  Put(r.prep[k], net.width[w])
-       ELSE v[w]]
+\* leaf states after the edge: every clockable of an active domain stepped on the pre-edge values
+EdgeRefSt(v, s) == EdgeStFrom(s, v, s, ActiveDoms(v), 1)
+
+RECURSIVE PrepOuts(_, _, _, _)
+PrepOuts(v, b, prep, k) ==
+    IF k > Len(prep) THEN v
+    ELSE PrepOuts([v EXCEPT ![L(b).outs[k]] = Put(prep[k], net.width[L(b).outs[k]])], b, prep, k + 1)
+
+RECURSIVE EdgePrepFrom(_, _, _, _, _)
+EdgePrepFrom(acc, v, s, act, b) ==
+    IF b > Len(net.leaves) THEN acc
+    ELSE EdgePrepFrom(IF IsSeq(b) /\ L(b).dom \in act
+                      THEN PrepOuts(acc, b, SeqClock(L(b).kind, L(b).p, s[b], InVals(b, v)).prep, 1)
+                      ELSE acc, v, s, act, b + 1)
+
+\* wire values right after Wire.settleAll(): every prepared value applied to the pre-edge values
+EdgeRefPrep(v, s) == EdgePrepFrom(v, v, s, ActiveDoms(v), 1)
+
+\* one whole clock cycle as an order-free function of (val, st): [v, s]
+CycleRef(v, s, ord) == [v |-> PropAll(EdgeRefPrep(v, s), ord), s |-> EdgeRefSt(v, s)]
+
+RECURSIVE CyclesRef(_, _, _, _)
+CyclesRef(v, s, ord, n) == IF n = 0 THEN [v |-> v, s |-> s]
+                           ELSE LET c == CycleRef(v, s, ord) IN CyclesRef(c.v, c.s, ord, n - 1)
 
 EdgeAtomic ==
     pc = "settled" /\ ~taint =>
